@@ -5,6 +5,7 @@
 package gen
 
 import (
+	"bytes"
 	"encoding/binary"
 	"fmt"
 	"reflect"
@@ -442,4 +443,26 @@ func Decoy(wire []byte) []byte {
 		d[i] ^= 0xa5
 	}
 	return d
+}
+
+// CmdsMatch: after a successful command decode the field holds the MAC commands its bytes carry, nothing else.
+func CmdsMatch(up bool, items []lorawan.Payload, raw []byte, what string) error {
+	want, err := ref.DecodeCmds(up, raw, nil)
+	if err != nil {
+		return nil // not a well-formed command stream: nothing to compare
+	}
+	if len(items) != len(want) {
+		return fmt.Errorf("%s holds %d items, the bytes %x carry %d commands", what, len(items), raw, len(want))
+	}
+	for i, it := range items {
+		mc, ok := it.(*lorawan.MACCommand)
+		if !ok {
+			return fmt.Errorf("%s: item %d is a %T although the decode reported success (bytes %x)", what, i, it, raw)
+		}
+		got := ModelCmd(up, mc)
+		if got.CID != want[i].CID || !got.Vals.Equal(want[i].Vals) && !(len(got.Vals) == 0 && len(want[i].Vals) == 0) || !bytes.Equal(got.Raw, want[i].Raw) {
+			return fmt.Errorf("%s: command %d is %+v, the bytes %x carry %+v", what, i, got, raw, want[i])
+		}
+	}
+	return nil
 }
